@@ -448,6 +448,11 @@ def finish(run, level="proof", trusted_base=None, assumptions=None, checker_cmd=
                 run.known.append(line)
         else:
             reported.append(v)
+    if run.discharged != run.obligations and not reported:
+        # defensive: whatever the filters above did, a run whose proof obligations are not all discharged never ends as OK
+        reported.append({"property": run.prop, "kind": "proof", "no_failing_input_found": True,
+                         "case": "coq/Properties/%s.v" % run.prop, "how_found": "proof",
+                         "expected": "all %d obligations discharged" % run.obligations, "observed": "%d discharged" % run.discharged})
     cov = dict(run.coverage)
     cov.update({
         "obligations": run.obligations,
